@@ -30,7 +30,16 @@ def check_state_for_iface(rep, prog, rule):
         g = mk_obj(st, 'g:' + LISTN, W, kind='global', default='unknown')
         g.cells[((), 0)] = (W, ('pset', ('sym', 'g_iface_states@entry', 0, 0), (ZERO, ('ptr', 'RECS', ZERO))))
         st.tags['known_globals'] = ('g:' + LISTN,)
-        return [Val(ix.parse_type('void *'), ('ptr', 'ext:ctx', ZERO))]
+        args = [Val(ix.parse_type('void *'), ('ptr', 'ext:ctx', ZERO))]
+        # further parameters (a `create` flag, a hint): any value the type admits
+        from ..facts import fn_params
+        for p_ in fn_params(fn)[1:]:
+            pty = ix.parse_type(p_['type']['qualType'])
+            if pty.kind != 'int':
+                raise AnalysisBroken('%s: parameter %s of type %s cannot be modelled' % (LOOKUP, p_.get('name'), p_['type']['qualType']))
+            lo_, hi_ = pty.minmax()
+            args.append(Val(pty, ('sym', 'arg:%s' % p_.get('name'), lo_, hi_)))
+        return args
     from ..engine import Engine
     E = Engine(prog, port=PortModel(), entry_name=LOOKUP)
     E.loop_info = {}
